@@ -208,6 +208,11 @@ def gen_case(rng, tier):
         elif r < 0.9:
             opr = rng.choice(['==', '>=', '<=', '>', '<'])
             ver = rng.choice(['1.2.3', '1.2.2', '1.2.4', '1.10.0', '1.2', '1.2.3b1', '0.9.9', '1.2.10', '2.0.0', '1.2.3rc1'])
+            if rng.random() < 0.4:
+                # the ISA itself is a pre-release: it precedes its own release and follows the previous one
+                iv = rng.choice(['1.2.3rc1', '1.2.3b2', '1.2.3a1', '2.0.0rc1', '1.2.4b1'])
+                isa['general']['identifier']['version'] = iv
+                ver = rng.choice([ver, '1.2.3', '2.0.0', '1.2.4', iv, '1.2.3rc2', '1.2.3b1'])
             req = {'name': name, 'cmp': opr, 'version': ver}
             asm = f'#require "{name} {opr} {ver}"\nnop\n'
         else:
@@ -216,8 +221,28 @@ def gen_case(rng, tier):
     return {'isa': isa, 'fault': f, 'asm': asm, 'req': req, 'running': run, 'minSupported': mn}
 
 
+REQ_VERSIONS = ['1.2.3', '1.2.3rc1', '1.2.3b2', '1.2.3a1', '1.2.4', '1.2.2', '1.10.0', '1.2', '2.0.0', '2.0.0rc1']
+
+
+def require_matrix(rng, tier):
+    """#require decisions over the whole grid ISA version x operator x required version (releases, pre-releases of the same
+    and of other releases, numerically vs lexically ordered parts): the decision is the semantic-version comparison"""
+    run, mn = versions()
+    out = []
+    for iv in REQ_VERSIONS:
+        for opr in ['==', '>=', '<=', '>', '<']:
+            for ver in REQ_VERSIONS:
+                isa = base_isa(rng)
+                isa['general']['identifier']['version'] = iv
+                out.append({'isa': isa, 'fault': 'require-matrix', 'asm': f'#require "tisa {opr} {ver}"\nnop\n',
+                            'req': {'name': 'tisa', 'cmp': opr, 'version': ver}, 'running': run, 'minSupported': mn})
+    if tier == 'quick':
+        out = rng.sample(out, 250)
+    return out
+
+
 def generate(rng, tier):
-    return [gen_case(rng, tier) for _ in range(500 if tier == 'quick' else 8000)]
+    return [gen_case(rng, tier) for _ in range(500 if tier == 'quick' else 8000)] + require_matrix(rng, tier)
 
 
 def to_impl(case):
@@ -227,7 +252,7 @@ def to_impl(case):
 def to_model(case):
     reqs = [{'op': 'validate', 'isa': abstract(case['isa']), 'running': case['running'], 'minSupported': case['minSupported']}]
     if case['req'] and not case['req'].get('malformed'):
-        r = dict(case['req'], op='require', isaName='tisa', isaVersion='1.2.3')
+        r = dict(case['req'], op='require', isaName='tisa', isaVersion=str(case['isa']['general']['identifier']['version']))
         reqs.append(r)
     return reqs
 
